@@ -89,6 +89,7 @@ PayloadOK(e) ==
     /\ e.out # "panic"
     /\ \A i \in 1..Len(e.rels) : RelOK(e.rels[i], e.out)
     /\ (\E i \in 1..Len(e.rels) : ~ShapeFits(e.rels[i])) => e.out = "reject"
+    /\ e.unknownrel => e.out = "reject"          \* a relationship the type does not have, whatever its object carries
     /\ e.out = "accept" => e.attrs_same /\ e.absent_zero /\ e.idtype_same /\ e.remarshal_same
 
 -----------------------------------------------------------------------------
@@ -117,6 +118,7 @@ AsSet(q) == {q[i] : i \in 1..Len(q)}
 PartialOK(e) ==
     /\ e.part # "panic"
     /\ e.out # "panic" => e.part = e.out                 \* accepted iff full unmarshaling accepts
+    /\ e.unknownrel => e.part = "reject"
     /\ e.part = "accept" =>
           /\ e.pname_ok
           /\ AsSet(e.pattrs) = AsSet(e.present) /\ Len(e.pattrs) = Cardinality(AsSet(e.present))
